@@ -51,6 +51,16 @@ pub enum TapRef<'a> {
     Bytes(&'a mut [u8]),
 }
 
+impl TapRef<'_> {
+    fn reborrow(&mut self) -> TapRef<'_> {
+        match self {
+            TapRef::Bool(b) => TapRef::Bool(b),
+            TapRef::U128(b) => TapRef::U128(b),
+            TapRef::Bytes(b) => TapRef::Bytes(b),
+        }
+    }
+}
+
 type TapFn = Box<dyn FnMut(usize, TapRef<'_>)>;
 
 thread_local! {
@@ -116,13 +126,13 @@ pub(crate) fn probe_vec(site: &'static str, data: impl Iterator<Item = u64>) {
     }
 }
 
-fn with_tap(site: &'static str, idx: usize, r: TapRef<'_>) {
+fn with_tap(site: &'static str, idx: usize, mut r: TapRef<'_>) {
     let party = current_party();
     TAPS.with(|t| {
         // a tap closure must not re-enter the engine, so a plain borrow is fine
         if let Ok(mut taps) = t.try_borrow_mut() {
-            if let Some((_, _, f)) = taps.iter_mut().find(|(s, p, _)| *s == site && *p == party) {
-                f(idx, r);
+            for (_, _, f) in taps.iter_mut().filter(|(s, p, _)| *s == site && *p == party) {
+                f(idx, r.reborrow());
             }
         }
     });
